@@ -59,7 +59,7 @@ def run(ctx):
                         'imply strong order p for the one-step scheme (trusted, not mechanised)',
                         'orders are read from the code: lowering an advertised order never alarms, raising it above the truth does',
                         'outputs strictly inside a step are linear interpolants (C12) and are order 1/2 by construction: the claim is for grid times and ts[-1]']
-    ctx.outside += ['the limit dt -> 0 and the RMS over sample paths themselves', 'adaptive stepping: "the error shrinks as tolerances are tightened"',
+    ctx.outside += ['the limit dt -> 0 and the RMS over sample paths themselves', 'adaptive stepping: "the error shrinks as tolerances are tightened" (the loop invariants of the adaptive branch are discharged, the monotone limit is not)',
                     'reversible Heun beyond the first step from a consistent state (its extra state z makes later steps start from a perturbed state; '
                     'the advertised order 0.5 is checked for one step)']
     tasks = c02.task_list(ctx.tier)
@@ -70,6 +70,10 @@ def run(ctx):
         c02.report(ctx, res)
     # loop tiling (symbolic, real integrate) ...
     c02.purity_obligations(ctx)      # the step analysed above is the step taken at every point of a solve
+    # adaptive stepping: accepted steps tile [ts[0], ts[-1]], each is the two-half-step solution over exactly its own interval,
+    # rejected trials leave (t, y, extra) untouched (the C14 obligations, discharged here as the lemma convergence rests on)
+    from . import c14
+    c14.check_schedules(ctx, prefix='lemma adaptive loop: ', sig_prefix='adaptive-loop|', extra=dict(kind='adaptive'), tier='quick')
     lt = c12.tasks_for('quick')[:2]
     for t, (st_, res) in zip(lt, pmap(c12.run_one, lt)):
         name = f"integrate tiling nout={t[0]} max_steps={t[1]}"
@@ -151,6 +155,9 @@ def replay(data):
         return bool(res['bad'])
     if r.get('kind') == 'purity':
         return c02.replay(data)
+    if r.get('kind') == 'adaptive':
+        from . import c14
+        return c14.replay(data)
     # a local-order defect found by the series analysis: first confirm the coefficient numerically (C02 replay), then measure
     # the empirical strong order of the real sdeint against a closed form
     ok = c02.replay(data)
